@@ -100,22 +100,22 @@ class Stale: pass
     # O4: encode does not write into the document's component objects
     for path, name in PATHS:
         obs.append(Ob(
-            oid="O4.no_writes." + name, sig="u0: bool, u1: bool, u2: bool, w: int", pre=["0 <= w <= 3"], header=HDRC, timeout=T,
+            oid="O4.no_writes." + name, sig="u0: bool, u1: bool, u2: bool, w: int, fails: bool", pre=["0 <= w <= 3"], header=HDRC, timeout=T,
             body=r'''
     def body():
         used = [n for n, u in zip(NAMES, (u0, u1, u2)) if u]
         where = [w if (w != 0 or %d != 2) else 1] * len(used)
         run_encode(%d, used, where, encode=False)
         reference = snapshot(run_encode.last_doc)       # identically prepared, never encoded
-        run_encode(%d, used, where)
+        run_encode(%d, used, where, raise_in_body=fails and %d != 2)
         return snapshot(run_encode.last_doc) == reference
     return with_tables([1, 2, 3], False, body)
-''' % (path, path, path),
+''' % (path, path, path, path),
             funcs=["rtflite.encoding.unified_encoder:UnifiedRTFEncoder.encode",
                    "rtflite.encoding.unified_encoder:UnifiedRTFEncoder._encode_multi_section"],
             stubs=STUB_COLOR + ["document and components -> namespaces (value snapshots compared)"],
-            bounds="%s path; any used subset and placement" % name,
-            what="after encode the document's component objects hold the same values as an identically prepared document that was "
+            bounds="%s path; any used subset and placement; the body section succeeds or raises ValueError" % name,
+            what="after encode - returned or raised - the document's component objects hold the same values as an identically prepared document that was "
                  "never encoded (nothing an encode writes can leak into a later encode)"))
     # O5: construction does not write defaults into objects shared by the caller
     obs.append(Ob(
@@ -172,7 +172,7 @@ def mkh(kind):
     ncol = concrete_int(cols, 2, 3)
     doc = NS(rtf_column_header=hs, rtf_body=NS(as_colheader=as_colheader, col_rel_width=[1.0] * ncol, subline_by=None),
              rtf_page=NS(border_first="double" if has_pf else None, col_width=6.0), rtf_footnote=None, rtf_source=None)
-    reserved_before = RTFDocumentService.calculate_additional_rows_per_page(NS(), doc)
+    reserved_before = RTFDocumentService.calculate_additional_rows_per_page(NS.of(RTFDocumentService), doc)
     r = PageRenderer.__new__(PageRenderer)
     r.encoding_service = NS(encode_column_header=lambda text, hdr, w: ["HROW"] if text is not None else None)
     page = NS(is_first_page=first, data=minipl.Frame({"c%d" % j: ["x"] for j in range(ncol)}), table_attrs=NS(col_rel_width=[1.0] * ncol))
@@ -184,7 +184,7 @@ def mkh(kind):
     finally:
         rmod.pl = saved
     same = [h.model_dump() for h in hs] == before and out1 == out2
-    return same and RTFDocumentService.calculate_additional_rows_per_page(NS(), doc) == reserved_before
+    return same and RTFDocumentService.calculate_additional_rows_per_page(NS.of(RTFDocumentService), doc) == reserved_before
 ''',
         funcs=["rtflite.encoding.renderer:PageRenderer._render_column_headers",
                "rtflite.services.document_service:RTFDocumentService.calculate_additional_rows_per_page"],
@@ -197,6 +197,12 @@ def mkh(kind):
     for ob in c20_build(tier, seed)[0]:
         if ob.oid == "O3.history_independent":
             ob.oid = "O7.width_history"
+            obs.append(ob)
+    # O8: the real footnote/source encoders leave the component they are given untouched (shared with C07-O3)
+    from .C07 import build as c07_build
+    for ob in c07_build(tier, seed)[0]:
+        if ob.oid.startswith("O3.override."):
+            ob.oid = "O8.component_untouched." + ob.oid.split(".")[-1]
             obs.append(ob)
     meta = {
         "explanation": "Instead of exploring histories, the pre-state is made symbolic: for an ARBITRARY residual colour context "
